@@ -84,7 +84,51 @@ def ground_axioms(fs):
     return inst
 
 
-def discharge(ob, timeout_ms=None, use_cvc5=True):
+def _check_forked(solver, hard_s):
+    """Run solver.check() in a forked child with a HARD wall-clock limit (z3's own timeout is not always honoured by
+    the nonlinear-arithmetic engine).  Returns ('unsat'|'sat'|'unknown', model_dict|None)."""
+    import pickle
+    import select
+    import signal
+    r, w = os.pipe()
+    pid = os.fork()
+    if pid == 0:
+        try:
+            os.close(r)
+            res = solver.check()
+            payload = (str(res), model_to_dict(solver.model()) if res == z3.sat else None)
+            os.write(w, pickle.dumps(payload))
+        except BaseException:
+            pass
+        finally:
+            os._exit(0)
+    os.close(w)
+    out = ("unknown", None)
+    try:
+        ready, _, _ = select.select([r], [], [], hard_s)
+        if ready:
+            data = b""
+            while True:
+                chunk = os.read(r, 1 << 16)
+                if not chunk:
+                    break
+                data += chunk
+            if data:
+                out = pickle.loads(data)
+    finally:
+        try:
+            os.kill(pid, signal.SIGKILL)
+        except OSError:
+            pass
+        try:
+            os.waitpid(pid, 0)
+        except OSError:
+            pass
+        os.close(r)
+    return out
+
+
+def discharge(ob, timeout_ms=None, use_cvc5=True, hard=False):
     t0 = time.time()
     if ob.backend in ("structural", "frame", "flow", "sympy") or z3.is_true(ob.goal) or z3.is_false(ob.goal):
         # structurally decided obligations still need a reachable path to count as refuted
@@ -112,13 +156,18 @@ def discharge(ob, timeout_ms=None, use_cvc5=True):
     s.add(*ob.pc)
     s.add(z3.Not(ob.goal))
     s.add(*ground_axioms(list(ob.pc) + [ob.goal]))
-    r = s.check()
+    hard_model = None
+    if hard:
+        rs, hard_model = _check_forked(s, (timeout_ms or Z3_TIMEOUT_MS) / 1000.0 + 5.0)
+        r = {"unsat": z3.unsat, "sat": z3.sat}.get(rs, z3.unknown)
+    else:
+        r = s.check()
     ob.backend = "z3"
     if r == z3.unsat:
         ob.status = "proved"
     elif r == z3.sat:
         ob.status = "refuted"
-        ob.model = model_to_dict(s.model())
+        ob.model = hard_model if hard else model_to_dict(s.model())
     else:
         ob.status = "unknown"
         if use_cvc5:
